@@ -77,7 +77,8 @@ PollRet(e) ==
             /\ (Prop = "C05" =>
                     /\ SameOut(e.out, expect)
                     /\ (e.out.k = "ok" => pos = e.out.total))
-            /\ (Prop = "C03" =>
+            /\ (Prop = "C03" /\ Has(Rec[r], "big") => e.out.k \in {"ok", "err"})   \* (big frames travel as digests)
+            /\ (Prop = "C03" /\ ~Has(Rec[r], "big") =>
                     /\ e.out.k \in {"ok", "err"}
                     /\ maxend <= e.buflen
                     \* reads that landed inside the buffer that is handed out must have covered all of it
